@@ -633,6 +633,17 @@ func run(s *core.Shard) {
 		}
 	}
 
+	// lattices: 2 x 30 services with 2^30 dependency paths between top and bottom
+	for _, rev := range []bool{false, true} {
+		for _, root := range []string{"", "base", "chain-03"} {
+			f := &freeSpec{Fronts: 3, Chain: 30, Width: 2, Reverse: rev, Root: root, Max: 4, Procs: 4, Rounds: 3}
+			if !next(fmt.Sprintf("free-traversal-lattice/%v/%s", rev, root)) {
+				continue
+			}
+			runFree(s, f)
+		}
+	}
+
 	// ---- part 1: concurrent loads ----------------------------------------------
 	rng := s.Rand("groups")
 	groups := s.Pick(640, 12000)
@@ -714,9 +725,16 @@ func witness(s *core.Shard, f core.Finding) (bool, string) {
 		Group groupSpec `json:"group"`
 		Fan   FanSpec   `json:"fan"`
 		Reps  int       `json:"reps"`
+		Kind  string    `json:"kind"`
+		Spec  *freeSpec `json:"spec"`
 	}
 	if err := json.Unmarshal(f.Witness, &w); err != nil {
 		return false, "bad witness: " + err.Error()
+	}
+	if w.Kind == "free-traversal" && w.Spec != nil {
+		// a reproduction kills or stalls this process (the driver reports that); returning means it did not
+		runFree(s, w.Spec)
+		return false, "the free-running traversal completed"
 	}
 	runtime.GOMAXPROCS(4)
 	if w.Reps == 0 {
